@@ -13,6 +13,8 @@ Definition dispatch (tokens : list str) : str :=
     else if is_name dom "glob" then run_glob name args
     else if is_name dom "file" then run_file name args
     else if is_name dom "route" then run_route name args
+    else if is_name dom "data" then run_data name args
+    else if is_name dom "sandbox" then run_sandbox name args
     else lit "?domain"
   | _ => lit "?empty"
   end.
